@@ -6,7 +6,7 @@ variable {α : Type} [Num α]
 
 /-- What every entry point's result looks like. -/
 def TailShape (m : Method) (d' : Dendrogram α) : Prop :=
-  d'.steps = #[] ∨ ∃ raw uf rel, relabel m raw = .ok (uf, rel) ∧ d' = sqrtSteps m rel
+  d'.steps = #[] ∨ ∃ raw uf0 uf rel, relabel m uf0 raw = .ok (uf, rel) ∧ d' = sqrtSteps m rel
 
 theorem primitiveWith_tail (chk : Bool) (m : Method) (st : State α) (d : Dendrogram α)
     (data : Array α) (n : Nat) (st' : State α) (d' : Dendrogram α) (M' : Mat α)
@@ -20,7 +20,7 @@ theorem primitiveWith_tail (chk : Bool) (m : Method) (st : State α) (d : Dendro
   · simp only [bind_ok, pure_ok] at h
     obtain ⟨⟨st1, d1, M1⟩, _, ⟨uf, rel⟩, hrel, heq⟩ := h
     right
-    refine ⟨d1, uf, rel, hrel, ?_⟩
+    refine ⟨d1, _, uf, rel, hrel, ?_⟩
     simp only [Prod.mk.injEq] at heq
     exact heq.2.1.symm
 
@@ -36,7 +36,7 @@ theorem genericWith_tail (chk : Bool) (m : Method) (st : State α) (d : Dendrogr
   · simp only [bind_ok, pure_ok] at h
     obtain ⟨_, _, _, _, ⟨st1, d1, M1⟩, _, ⟨uf, rel⟩, hrel, heq⟩ := h
     right
-    refine ⟨d1, uf, rel, hrel, ?_⟩
+    refine ⟨d1, _, uf, rel, hrel, ?_⟩
     simp only [Prod.mk.injEq] at heq
     exact heq.2.1.symm
 
@@ -52,7 +52,7 @@ theorem mstWith_tail (chk : Bool) (st : State α) (d : Dendrogram α)
   · simp only [bind_ok, pure_ok] at h
     obtain ⟨_, _, ⟨st1, d1, M1, c1⟩, _, ⟨uf, rel⟩, hrel, heq⟩ := h
     right
-    refine ⟨d1, uf, rel, hrel, ?_⟩
+    refine ⟨d1, _, uf, rel, hrel, ?_⟩
     simp only [Prod.mk.injEq] at heq
     rw [← heq.2.1]; rfl
 
@@ -68,7 +68,7 @@ theorem nnchainWith_tail (chk : Bool) (mc : MethodChain) (st : State α) (d : De
   · simp only [bind_ok, pure_ok] at h
     obtain ⟨s, _, ⟨uf, rel⟩, hrel, heq⟩ := h
     right
-    refine ⟨s.dend, uf, rel, hrel, ?_⟩
+    refine ⟨s.dend, _, uf, rel, hrel, ?_⟩
     simp only [Prod.mk.injEq] at heq
     exact heq.2.1.symm
 
